@@ -77,6 +77,8 @@ pub struct MemDb {
     pub attach_code: bool,
     /// sleep this long in every read (lets entry-point callers arrive while a block is running)
     pub delay_us: u64,
+    /// panic when this key is read (a user database that panics inside a worker)
+    pub panic_key: Option<Key>,
 }
 
 impl Clone for MemDb {
@@ -90,6 +92,7 @@ impl Clone for MemDb {
             log_touched: self.log_touched,
             attach_code: self.attach_code,
             delay_us: self.delay_us,
+            panic_key: self.panic_key.clone(),
         }
     }
 }
@@ -130,6 +133,9 @@ impl MemDb {
         );
     }
     fn check(&self, key: Key) -> Result<(), DbError> {
+        if self.panic_key.as_ref() == Some(&key) {
+            panic!("injected panic at {key:?}");
+        }
         if self.delay_us > 0 {
             std::thread::sleep(std::time::Duration::from_micros(self.delay_us));
         }
@@ -521,6 +527,63 @@ pub fn run_grevm(block: &Block, cfg: &RunCfg, schedule: Option<(Strategy, u64)>)
     run_grevm_on(block, cfg, schedule, state).0
 }
 
+/// Process-level watchdog: a run that does not return is itself the finding (C05). The harness
+/// cannot cancel scheduler threads, so it reports what it knows and exits.
+pub mod watchdog {
+    use std::{
+        sync::{Mutex, OnceLock},
+        time::{Duration, Instant},
+    };
+
+    struct Armed {
+        since: Instant,
+        limit: Duration,
+        what: String,
+    }
+    static ARMED: Mutex<Option<Armed>> = Mutex::new(None);
+    static STARTED: OnceLock<()> = OnceLock::new();
+    /// context of the running check (subcommand, case, seed), set by the subcommands
+    pub static CONTEXT: Mutex<String> = Mutex::new(String::new());
+    pub static CASES_DONE: std::sync::atomic::AtomicUsize = std::sync::atomic::AtomicUsize::new(0);
+
+    pub fn arm(what: String, limit: Duration) {
+        STARTED.get_or_init(|| {
+            std::thread::spawn(|| loop {
+                std::thread::sleep(Duration::from_millis(250));
+                let fire = {
+                    let g = ARMED.lock().unwrap();
+                    g.as_ref().filter(|a| a.since.elapsed() > a.limit).map(|a| (a.what.clone(), a.limit))
+                };
+                if let Some((what, limit)) = fire {
+                    let ctx = CONTEXT.lock().unwrap().clone();
+                    let detail = format!("execution did not return within {}s: {what}; context: {ctx}", limit.as_secs());
+                    let j = crate::json::J::obj(vec![
+                        ("check", crate::json::J::s(format!("watchdog ({ctx})"))),
+                        ("cases", crate::json::J::n(CASES_DONE.load(std::sync::atomic::Ordering::SeqCst))),
+                        ("conforming", crate::json::J::n(0)),
+                        ("distinct_nontrivial", crate::json::J::n(0)),
+                        (
+                            "divergences",
+                            crate::json::J::Arr(vec![crate::json::J::obj(vec![
+                                ("kind", crate::json::J::s("stall")),
+                                ("detail", crate::json::J::s(detail)),
+                            ])]),
+                        ),
+                        ("samples", crate::json::J::Arr(vec![])),
+                    ]);
+                    println!("{}", j.render());
+                    std::process::exit(0);
+                }
+            });
+        });
+        *ARMED.lock().unwrap() = Some(Armed { since: Instant::now(), limit, what });
+    }
+
+    pub fn disarm() {
+        *ARMED.lock().unwrap() = None;
+    }
+}
+
 pub fn run_grevm_on(
     block: &Block,
     cfg: &RunCfg,
@@ -553,9 +616,20 @@ pub fn run_grevm_on(
         }
         _ => None,
     };
+    watchdog::arm(
+        format!(
+            "block of {} txs {:?}, config {}, schedule {:?}",
+            block.txs.len(),
+            block.desc,
+            cfg.describe(),
+            schedule.as_ref().map(|(s, seed)| (format!("{s:?}").chars().take(200).collect::<String>(), *seed))
+        ),
+        std::time::Duration::from_secs(if ctrl.is_some() { 90 } else { 60 }),
+    );
     let run = std::panic::catch_unwind(std::panic::AssertUnwindSafe(|| {
         if cfg.entry_fallback { scheduler.fallback_sequential() } else { scheduler.execute() }
     }));
+    watchdog::disarm();
     let report = ctrl.map(|c| c.finish());
     match run {
         Ok(res) => {
